@@ -87,7 +87,9 @@ Read(cap, k) ==
        THEN /\ lastRead' = [n |-> 0, err |-> cutKind] /\ k = 0 /\ UNCHANGED <<tpos, ri, lo, hi, rErr, outTotal, outpos, rPass, repl>>
        ELSE /\ k \in 1..Min(cap, cutAt - tpos)
             /\ tpos' = tpos + k /\ outTotal' = outTotal + k /\ outpos' = outpos + k /\ lo' = lo + k /\ hi' = hi + k
-            /\ lastRead' = [n |-> k, err |-> "none"] /\ UNCHANGED <<ri, rErr, rPass, repl>>
+            \* (an io.Reader may hand over its last bytes together with the error; the call is the transport's)
+            /\ \E e \in (IF tpos + k = cutAt THEN {"none", cutKind} ELSE {"none"}) : lastRead' = [n |-> k, err |-> e]
+            /\ UNCHANGED <<ri, rErr, rPass, repl>>
   /\ UNCHANGED <<scen, wvars>>
 
 \* ------------------------------------------------------------------ write side
